@@ -1,4 +1,477 @@
-import XgiModel.C12.Linalg
+/-
+  C12 — Matrix representations encode the network exactly.
+  Property theorems only, about the functions of XgiModel/C12/Linalg.lean that the driver runs, for every
+  network satisfying `Net.WF` (distinct node IDs, distinct edge IDs, members duplicate-free nodes).
+  Vocabulary (XgiModel/C12/Lemmas*.lean): `ent M i k` = entry (i, k) of a list-of-rows matrix;
+  `quadQ M x` = xᵀ M x; `pairs l` = the unordered pairs of a list; `edgesOf h o` = the (edge ID, members)
+  pairs of the requested order in `H.edges` order.  Index maps: `rowdict = {i: rows[i]}`.
+
+  NOT proved here (reported, not weakened silently):
+  * sparse = dense (a fact about scipy; exhibited by the correspondence runs only);
+  * the position of an index tuple in the flattened adjacency tensor (row-major order; correspondence only);
+  * the normalised Laplacian is handled through its rational pieces M = H W De⁻¹ Hᵀ and Dv: what is proved is
+    symmetry of M, M·1 = weighted degree, and positive semidefiniteness of D − M (D = weighted degree), which
+    is congruent to I − D^{-1/2} M D^{-1/2} via x = D^{1/2} y; the square-root step itself is not formalised.
+    FULL-STRENGTH STATEMENT (property text): "for non-negative edge weights the matrix returned by
+    normalized_hypergraph_laplacian(weighted=True) is the textbook matrix and positive semidefinite".  It is
+    FALSE for the code (and hence for the model, which describes the code): the code normalises with the
+    unweighted degree (known finding C12 / normalized_hypergraph_laplacian).  Proved instead:
+    `C12_normalized_psd_partial` (all weights 1) and `C12_normalized_textbook_psd` (the same M with the weighted
+    degree is PSD for all non-negative weights); the negation on the witness is the last `example`.
+-/
+import XgiModel.C12.LemmasNorm
+
+set_option linter.unnecessarySeqFocus false
+
 namespace Xgi.C12
-theorem C12_stub : True := trivial
+open Xgi
+
+/-- number of edges of the requested order containing both n and m -/
+def shared (h : Net) (o : Option Nat) (n m : PyId) : Nat :=
+  ((edgesOf h o).filter (fun p => decide (n ∈ p.2 ∧ m ∈ p.2))).length
+/-- number of edges of the requested order containing n -/
+def degOf (h : Net) (o : Option Nat) (n : PyId) : Nat :=
+  ((edgesOf h o).filter (fun p => decide (n ∈ p.2))).length
+/-- yᵀ (Dv − M) y for the pieces of the normalised Laplacian; xᵀ L x = congQuad r (x_i / sqrt(Dv_i)) -/
+def congQuad (r : Norm) (y : List ℚ) : ℚ := qdot r.dv (y.map (fun v => v * v)) - quadQ r.m y
+
+/-! ### requested order -/
+
+/-- an edge with k members has the requested order (`None` = every order) -/
+def orderOK : Option Nat → Nat → Prop
+  | none, _ => True
+  | some d, k => k = d + 1
+
+/-- `edgesOf` keeps exactly the edges of the requested order (all edges for `None`) -/
+theorem C12_edgesOf_mem (h : Net) (o : Option Nat) (p : PyId × List PyId) :
+    p ∈ edgesOf h o ↔ p ∈ h.edges ∧ orderOK o p.2.length := by
+  cases o with
+  | none => simp [edgesOf, orderOK]
+  | some d => simp [edgesOf, orderOK]
+
+/-! ### incidence matrix -/
+
+/-- the index maps: nodes in `H.nodes` order and the edges of the requested order in `H.edges` order;
+    the (0, 0) matrix with empty maps when there are no nodes or no such edges -/
+theorem C12_incidence_index_maps (h : Net) (o : Option Nat) :
+    (edgesOf h o ≠ [] ∧ h.nodes ≠ [] → (incidence h o).rows = h.nodes ∧
+        (incidence h o).cols = (edgesOf h o).map (·.1) ∧ (incidence h o).mat.length = h.nodes.length ∧
+        ∀ r ∈ (incidence h o).mat, r.length = (edgesOf h o).length) ∧
+    (edgesOf h o = [] ∨ h.nodes = [] → incidence h o = ⟨[], [], []⟩) := by
+  refine ⟨fun hd => ?_, incidence_deg h o⟩
+  rw [incidence_nondeg h o hd.1 hd.2]
+  refine ⟨rfl, rfl, by simp, ?_⟩
+  intro r hr
+  simp only [List.mem_map] at hr
+  obtain ⟨n, _, rfl⟩ := hr
+  simp
+
+/-- with the returned index maps: entry (i, j) is 1 exactly when node rows[i] is a member of edge cols[j],
+    and cols[j] is an edge of the requested order -/
+theorem C12_incidence_spec (h : Net) (hwf : h.WF) (o : Option Nat) (i j : Nat) (n e : PyId)
+    (hn : (incidence h o).rows[i]? = some n) (he : (incidence h o).cols[j]? = some e) :
+    ent (incidence h o).mat i j = (if n ∈ h.members e then 1 else 0) ∧ e ∈ h.edgeIds ∧
+      orderOK o (h.members e).length := by
+  by_cases hd : edgesOf h o = [] ∨ h.nodes = []
+  · rw [incidence_deg h o hd] at hn; simp at hn
+  · push Not at hd
+    rw [incidence_nondeg h o hd.1 hd.2] at hn he ⊢
+    simp only at hn he ⊢
+    obtain ⟨hi, hni⟩ := List.getElem?_eq_some_iff.mp hn
+    rw [List.getElem?_map] at he
+    cases hej : (edgesOf h o)[j]? with
+    | none => simp [hej] at he
+    | some p =>
+      simp only [hej, Option.map_some, Option.some.injEq] at he
+      obtain ⟨hj, hpj⟩ := List.getElem?_eq_some_iff.mp hej
+      have hp : p ∈ edgesOf h o := hpj ▸ List.getElem_mem hj
+      have hp' := (C12_edgesOf_mem h o p).mp hp
+      have hmem : h.members e = p.2 := he ▸ members_of_mem h hwf p hp'.1
+      rw [ent_map_map _ _ _ i j hi hj, hni, hpj, hmem]
+      exact ⟨rfl, List.mem_map.mpr ⟨p, hp'.1, he⟩, hp'.2⟩
+
+/-! ### adjacency matrix (s ≥ 1) -/
+
+theorem C12_adjacency_shape (h : Net) (hwf : h.WF) (o : Option Nat) (s : Int) (w : Bool) (hs : 1 ≤ s) :
+    (adjacency h o s w).1.length = h.nodes.length ∧ ∀ r ∈ (adjacency h o s w).1, r.length = h.nodes.length := by
+  rw [adjacency_eq h hwf.1 o s w hs]
+  refine ⟨by simp, ?_⟩
+  intro r hr
+  simp only [List.mem_map] at hr
+  obtain ⟨n, _, rfl⟩ := hr
+  simp
+
+/-- the index map is `H.nodes` in order (empty in the degenerate branch, where the matrix is all zero) -/
+theorem C12_adjacency_index_map (h : Net) (o : Option Nat) (s : Int) (w : Bool) :
+    (adjacency h o s w).2 = if edgesOf h o = [] ∨ h.nodes = [] then [] else h.nodes :=
+  adjacency_labels h o s w
+
+theorem C12_adjacency_symm (h : Net) (hwf : h.WF) (o : Option Nat) (s : Int) (w : Bool) (hs : 1 ≤ s) (i k : Nat) :
+    ent (adjacency h o s w).1 i k = ent (adjacency h o s w).1 k i := by
+  rw [adjacency_eq h hwf.1 o s w hs]
+  by_cases hik : i < h.nodes.length ∧ k < h.nodes.length
+  · rw [ent_map_map _ _ _ i k hik.1 hik.2, ent_map_map _ _ _ k i hik.2 hik.1]
+    unfold adjF
+    by_cases e : h.nodes[i] = h.nodes[k]
+    · simp [e]
+    · have e' : ¬ h.nodes[k] = h.nodes[i] := fun x => e x.symm
+      simp [e, e', cnt_comm]
+  · rw [ent_map_map_oob _ _ _ i k hik, ent_map_map_oob _ _ _ k i (fun hc => hik ⟨hc.2, hc.1⟩)]
+
+theorem C12_adjacency_diag_zero (h : Net) (hwf : h.WF) (o : Option Nat) (s : Int) (w : Bool) (hs : 1 ≤ s) (i : Nat) :
+    ent (adjacency h o s w).1 i i = 0 := by
+  rw [adjacency_eq h hwf.1 o s w hs]
+  by_cases hi : i < h.nodes.length
+  · rw [ent_map_map _ _ _ i i hi hi]; simp [adjF, phi_zero s w hs]
+  · rw [ent_map_map_oob _ _ _ i i (fun hc => hi hc.1)]
+
+/-- off the diagonal: weighted entry = c·[c ≥ s], unweighted entry = [c ≥ s], where c is the number of
+    edges of the requested order that contain both nodes -/
+theorem C12_adjacency_count (h : Net) (hwf : h.WF) (o : Option Nat) (s : Int) (w : Bool) (hs : 1 ≤ s) (i k : Nat)
+    (hi : i < h.nodes.length) (hk : k < h.nodes.length) (hik : i ≠ k) :
+    ent (adjacency h o s w).1 i k =
+      if s ≤ (shared h o h.nodes[i] h.nodes[k] : Int) then (if w then (shared h o h.nodes[i] h.nodes[k] : Int) else 1) else 0 := by
+  rw [adjacency_eq h hwf.1 o s w hs, ent_map_map _ _ _ i k hi hk]
+  have hne : h.nodes[i] ≠ h.nodes[k] := fun e => hik ((List.Nodup.getElem_inj_iff hwf.1).mp e)
+  simp only [adjF, hne, if_false, phi, cnt_eq_length_filter]
+  rfl
+
+/-! ### degree vector, intersection profile, clique motif matrix -/
+
+/-- entry i of the degree vector = number of edges of the requested order containing node i -/
+theorem C12_degree_spec (h : Net) (o : Option Nat) :
+    (degreeVec h o).1 = h.nodes.map (fun n => (degOf h o n : Int)) := by
+  rw [degreeVec_eq]
+  apply List.map_congr_left; intro n _
+  rw [deg_eq_length_filter]; rfl
+
+theorem C12_degree_index_map (h : Net) (o : Option Nat) :
+    (degreeVec h o).2 = if edgesOf h o = [] ∨ h.nodes = [] then [] else h.nodes := by
+  unfold degreeVec
+  by_cases hd : edgesOf h o = [] ∨ h.nodes = []
+  · rw [incidence_deg h o hd]; simp [hd]
+  · have hd' := hd
+    push Not at hd'
+    rw [incidence_nondeg h o hd'.1 hd'.2]
+    have : (h.nodes.map (fun n => (edgesOf h o).map (ind n))).isEmpty = false := by simp [hd'.2]
+    simp [this, hd]
+
+/-- entry (j, l) of the intersection profile = |e_j ∩ e_l| over the edges of the requested order -/
+theorem C12_profile_spec (h : Net) (hwf : h.WF) (o : Option Nat) (j l : Nat)
+    (hj : j < (edgesOf h o).length) (hl : l < (edgesOf h o).length) :
+    ent (profile h o).1 j l
+      = (((edgesOf h o)[j].2.filter (fun a => decide (a ∈ (edgesOf h o)[l].2))).length : Int) ∧
+    (profile h o).2 = (incidence h o).cols := by
+  refine ⟨?_, rfl⟩
+  have hpj := edgesOf_good h hwf o _ (List.getElem_mem hj)
+  have key : ∀ (mem : List PyId) (q : PyId × List PyId),
+      (mem.map (fun a => ind a q)).sum = ((mem.filter (fun a => decide (a ∈ q.2))).length : Int) := by
+    intro mem q
+    induction mem with
+    | nil => simp
+    | cons a t ih =>
+      simp only [List.map_cons, List.sum_cons, List.filter_cons, ih]
+      by_cases ha : a ∈ q.2 <;> simp [ha, ind] <;> ring
+  by_cases hn : h.nodes = []
+  · have hempty : (edgesOf h o)[j].2 = [] := by
+      cases hm : (edgesOf h o)[j].2 with
+      | nil => rfl
+      | cons a t => exact absurd (hpj.2.2 a (by simp [hm])) (by simp [hn])
+    unfold profile
+    rw [incidence_deg h o (Or.inr hn)]
+    simp [transpose, mulT, ent, hempty]
+  · rw [profile_eq h o hn, ent_map_map _ _ _ j l hj hl]
+    have := sum_ind_mem (R := Int) h.nodes hwf.1 (edgesOf h o)[j].2 hpj.2.1 hpj.2.2
+      (fun a => ind a (edgesOf h o)[l])
+    rw [← key, ← this]
+    congr 1
+
+/-- the clique motif matrix is the weighted adjacency matrix over all orders: off the diagonal it counts the
+    shared edges -/
+theorem C12_clique_motif_spec (h : Net) (hwf : h.WF) (i k : Nat)
+    (hi : i < h.nodes.length) (hk : k < h.nodes.length) (hik : i ≠ k) :
+    ent (cliqueMotif h).1 i k = (shared h none h.nodes[i] h.nodes[k] : Int) := by
+  unfold cliqueMotif
+  rw [C12_adjacency_count h hwf none 1 true (le_refl 1) i k hi hk hik]
+  simp only [if_true]
+  split
+  · rfl
+  · omega
+
+/-! ### order-d Laplacian  L = d·K − A -/
+
+/-- entries of the integer Laplacian: d·(degree in order d) on the diagonal, −(shared order-d edges) off it -/
+theorem C12_laplacian_entries (h : Net) (hwf : h.WF) (d : Nat) (i k : Nat)
+    (hi : i < h.nodes.length) (hk : k < h.nodes.length) :
+    ent (laplacianInt h d).1 i k =
+      if i = k then (d : Int) * (degOf h (some d) h.nodes[i] : Int) else - (shared h (some d) h.nodes[i] h.nodes[k] : Int) := by
+  rw [laplacianInt_eq h hwf.1, ent_map_map _ _ _ i k hi hk]
+  unfold lapF
+  by_cases e : i = k
+  · subst e
+    simp only [if_true, cnt_self, deg_eq_length_filter, degOf]; ring
+  · have hne : h.nodes[i] ≠ h.nodes[k] := fun x => e ((List.Nodup.getElem_inj_iff hwf.1).mp x)
+    simp only [hne, e, if_false, cnt_eq_length_filter, shared]; ring
+
+/-- `laplacian` is undefined exactly for rescale_per_node with order 0 on a non-empty network -/
+theorem C12_laplacian_defined (h : Net) (hwf : h.WF) (d : Nat) (rescale : Bool) :
+    laplacian h d rescale = none ↔ (rescale = true ∧ d = 0 ∧ h.nodes ≠ []) := by
+  unfold laplacian
+  dsimp only
+  by_cases hn : h.nodes = []
+  · have := (laplacianInt_isEmpty h hwf.1 d).mpr hn
+    simp [this, hn]
+  · have he : (laplacianInt h d).1.isEmpty = false := by
+      cases hc : (laplacianInt h d).1.isEmpty
+      · rfl
+      · exact absurd ((laplacianInt_isEmpty h hwf.1 d).mp hc) hn
+    have he' : (laplacianInt h d).1 ≠ [] := by
+      intro hc; rw [hc] at he; simp at he
+    by_cases hd : d = 0
+    · subst hd; cases rescale <;> simp [he', hn]
+    · cases rescale <;> simp [he', hn, hd]
+
+theorem C12_laplacian_row_sums_zero (h : Net) (hwf : h.WF) (d : Nat) (rescale : Bool) (L : QMat × List PyId)
+    (hL : laplacian h d rescale = some L) : ∀ r ∈ L.1, r.sum = 0 :=
+  good_rows true h.nodes L.1 (laplacian_good h hwf d rescale L hL)
+
+theorem C12_laplacian_symm (h : Net) (hwf : h.WF) (d : Nat) (rescale : Bool) (L : QMat × List PyId)
+    (hL : laplacian h d rescale = some L) (i k : Nat) : ent L.1 i k = ent L.1 k i :=
+  good_symm true h.nodes L.1 (laplacian_good h hwf d rescale L hL) i k
+
+/-- xᵀ L x = Σ_e Σ_{a<b ∈ e} (x_a − x_b)² over the edges of order d (x any rational vector indexed by nodes) -/
+theorem C12_laplacian_sum_of_squares (h : Net) (hwf : h.WF) (d : Nat) (L : QMat × List PyId)
+    (hL : laplacian h d false = some L) (x : PyId → ℚ) :
+    quadQ L.1 (h.nodes.map x)
+      = ((edgesOf h (some d)).map (fun p => ((pairs p.2).map (fun ab => (x ab.1 - x ab.2) ^ 2)).sum)).sum := by
+  obtain ⟨hform, _⟩ := laplacian_eq h hwf.1 d false L hL
+  rw [hform, quadQ_map_map]
+  simp only [Bool.false_eq_true, if_false, mul_one]
+  exact lapF_quad h.nodes hwf.1 _ d (edgesOf_some_good h hwf d) x
+
+/-- positive semidefinite (also when rescaled by 1/d) -/
+theorem C12_laplacian_psd (h : Net) (hwf : h.WF) (d : Nat) (rescale : Bool) (L : QMat × List PyId)
+    (hL : laplacian h d rescale = some L) (xs : List ℚ) (hx : xs.length = h.nodes.length) : 0 ≤ quadQ L.1 xs :=
+  good_psd h.nodes hwf.1 L.1 (laplacian_good h hwf d rescale L hL) xs hx
+
+/-! ### multi-order Laplacian -/
+
+theorem C12_multiorder_length_mismatch (h : Net) (orders : List Nat) (weights : List ℚ) (rescale : Bool)
+    (hne : orders.length ≠ weights.length) : multiorder h orders weights rescale = .errValue := by
+  unfold multiorder; simp [hne]
+
+theorem C12_multiorder_shape_index (h : Net) (hwf : h.WF) (orders : List Nat) (weights : List ℚ) (rescale : Bool)
+    (L : QMat × List PyId) (hL : multiorder h orders weights rescale = .ok L) :
+    L.2 = h.nodes ∧ L.1.length = h.nodes.length ∧ ∀ r ∈ L.1, r.length = h.nodes.length :=
+  ⟨(multiorder_good false h hwf orders weights rescale (by simp) L hL).2,
+   good_shape false h.nodes L.1 (multiorder_good false h hwf orders weights rescale (by simp) L hL).1⟩
+
+theorem C12_multiorder_row_sums_zero (h : Net) (hwf : h.WF) (orders : List Nat) (weights : List ℚ) (rescale : Bool)
+    (L : QMat × List PyId) (hL : multiorder h orders weights rescale = .ok L) : ∀ r ∈ L.1, r.sum = 0 :=
+  good_rows false h.nodes L.1 (multiorder_good false h hwf orders weights rescale (by simp) L hL).1
+
+theorem C12_multiorder_symm (h : Net) (hwf : h.WF) (orders : List Nat) (weights : List ℚ) (rescale : Bool)
+    (L : QMat × List PyId) (hL : multiorder h orders weights rescale = .ok L) (i k : Nat) :
+    ent L.1 i k = ent L.1 k i :=
+  good_symm false h.nodes L.1 (multiorder_good false h hwf orders weights rescale (by simp) L hL).1 i k
+
+/-- positive semidefinite for non-negative weights -/
+theorem C12_multiorder_psd (h : Net) (hwf : h.WF) (orders : List Nat) (weights : List ℚ) (rescale : Bool)
+    (hw : ∀ w ∈ weights, 0 ≤ w) (L : QMat × List PyId) (hL : multiorder h orders weights rescale = .ok L)
+    (xs : List ℚ) (hx : xs.length = h.nodes.length) : 0 ≤ quadQ L.1 xs :=
+  good_psd h.nodes hwf.1 L.1 (multiorder_good true h hwf orders weights rescale (fun _ => hw) L hL).1 xs hx
+
+/-! ### normalised Laplacian: the rational pieces M = H W De⁻¹ Hᵀ and Dv -/
+
+/-- M is symmetric (hence so is I − Dv^{-1/2} M Dv^{-1/2}); the index map is `H.nodes`; Dv is the degree -/
+theorem C12_normalized_symm (h : Net) (hwf : h.WF) (weighted : Bool) (ws : List (Option ℚ)) (r : Norm)
+    (hr : normalized h weighted ws = .ok r) (i k : Nat) :
+    ent r.m i k = ent r.m k i ∧ r.rows = h.nodes ∧ r.dv = h.nodes.map (fun n => ((degOf h none n : Nat) : ℚ)) := by
+  obtain ⟨hm, hdv, hrows, _, _⟩ := normalized_eq h hwf weighted ws r hr
+  refine ⟨?_, hrows, ?_⟩
+  · rw [hm]
+    by_cases hik : i < h.nodes.length ∧ k < h.nodes.length
+    · rw [ent_map_map _ _ _ i k hik.1 hik.2, ent_map_map _ _ _ k i hik.2 hik.1, normF_symm]
+    · rw [ent_map_map_oob _ _ _ i k hik, ent_map_map_oob _ _ _ k i (fun hc => hik ⟨hc.2, hc.1⟩)]
+  · rw [hdv]
+    apply List.map_congr_left; intro n _
+    rw [deg_eq_length_filter]; simp [degOf, edgesOf]
+
+private theorem zw_good (h : Net) (hwf : h.WF) (w : List ℚ) (hnz : ∀ p ∈ h.edges, p.2.length ≠ 0) :
+    ∀ pw ∈ h.edges.zip w, pw.1.2.Nodup ∧ (∀ a ∈ pw.1.2, a ∈ h.nodes) ∧ pw.1.2.length ≠ 0 := by
+  intro pw hpw
+  have hmem := (List.of_mem_zip hpw).1
+  exact ⟨(hwf.2.2 pw.1 hmem).1, (hwf.2.2 pw.1 hmem).2, hnz pw.1 hmem⟩
+
+/-- with every weight 1 (in particular `weighted = False`), each row of M sums to the node's degree:
+    M·1 = Dv, i.e. sqrt(Dv) is in the kernel of I − Dv^{-1/2} M Dv^{-1/2} -/
+theorem C12_normalized_kernel_partial (h : Net) (hwf : h.WF) (weighted : Bool) (ws : List (Option ℚ)) (r : Norm)
+    (hr : normalized h weighted ws = .ok r)
+    (hone : ∀ x ∈ weightsOf h weighted ws, x = 1) (hlen : (weightsOf h weighted ws).length = h.edges.length) :
+    r.m.map List.sum = r.dv := by
+  obtain ⟨hm, hdv, _, _, hnz⟩ := normalized_eq h hwf weighted ws r hr
+  rw [hm, hdv, List.map_map]
+  apply List.map_congr_left; intro n hn
+  simp only [Function.comp_apply]
+  rw [normF_rowsum h.nodes hwf.1 _ (zw_good h hwf _ (hnz (List.ne_nil_of_mem hn))), degW_ones _ _ hone hlen]
+
+/-- the textbook form: with the *weighted* degree D(n) = Σ_e w(e) h(n, e), D − M is positive semidefinite for
+    all non-negative weights: Σ_n D(n) y_n² − yᵀ M y = Σ_e (w_e/|e|) Σ_{a<b ∈ e} (y_a − y_b)² ≥ 0 -/
+theorem C12_normalized_textbook_psd (h : Net) (hwf : h.WF) (weighted : Bool) (ws : List (Option ℚ)) (r : Norm)
+    (hr : normalized h weighted ws = .ok r) (hw : ∀ x ∈ weightsOf h weighted ws, 0 ≤ x) (y : PyId → ℚ) :
+    (h.nodes.map (fun n => degW (h.edges.zip (weightsOf h weighted ws)) n * (y n * y n))).sum
+        - quadQ r.m (h.nodes.map y)
+      = ((h.edges.zip (weightsOf h weighted ws)).map (fun pw => pw.2 / (pw.1.2.length : ℚ) *
+          ((pairs pw.1.2).map (fun ab => (y ab.1 - y ab.2) ^ 2)).sum)).sum ∧
+    0 ≤ (h.nodes.map (fun n => degW (h.edges.zip (weightsOf h weighted ws)) n * (y n * y n))).sum
+        - quadQ r.m (h.nodes.map y) := by
+  obtain ⟨hm, _, _, _, hnz⟩ := normalized_eq h hwf weighted ws r hr
+  by_cases hn : h.nodes = []
+  · have hall : ∀ p ∈ h.edges, p.2 = [] := by
+      intro p hp
+      cases hm' : p.2 with
+      | nil => rfl
+      | cons a t => exact absurd ((hwf.2.2 p hp).2 a (by simp [hm'])) (by simp [hn])
+    have hz : ((h.edges.zip (weightsOf h weighted ws)).map (fun pw => pw.2 / (pw.1.2.length : ℚ) *
+          ((pairs pw.1.2).map (fun ab => (y ab.1 - y ab.2) ^ 2)).sum)) =
+        (h.edges.zip (weightsOf h weighted ws)).map (fun _ => (0 : ℚ)) := by
+      apply List.map_congr_left; intro pw hpw
+      rw [hall pw.1 (List.of_mem_zip hpw).1]; simp [pairs]
+    rw [hm, hz]
+    simp [hn, quadQ, qdot]
+  · have hz := zw_good h hwf (weightsOf h weighted ws) (hnz hn)
+    have hq := normF_quad h.nodes hwf.1 _ hz y
+    have hsplit : quadF h.nodes (fun n m => (if n = m then degW (h.edges.zip (weightsOf h weighted ws)) n else 0)
+          - normF (h.edges.zip (weightsOf h weighted ws)) n m) y
+        = (h.nodes.map (fun n => degW (h.edges.zip (weightsOf h weighted ws)) n * (y n * y n))).sum
+          - quadQ r.m (h.nodes.map y) := by
+      rw [hm, quadQ_map_map]
+      unfold quadF
+      rw [← sum_map_sub']
+      congr 1
+      apply List.map_congr_left; intro n hn'
+      simp only [sub_mul]
+      rw [sum_map_sub']
+      have e1 : (h.nodes.map (fun m => (if n = m then degW (h.edges.zip (weightsOf h weighted ws)) n else 0) * y m))
+          = h.nodes.map (fun m => if n = m then degW (h.edges.zip (weightsOf h weighted ws)) n * y m else 0) := by
+        apply List.map_congr_left; intro m _; split <;> simp
+      rw [e1, sum_map_ite_eq h.nodes hwf.1 n hn' (fun m => degW (h.edges.zip (weightsOf h weighted ws)) n * y m)]
+      ring
+    rw [← hsplit]
+    refine ⟨hq, ?_⟩
+    exact normF_quad_nonneg h.nodes hwf.1 _ hz (fun pw hpw => hw pw.2 (List.of_mem_zip hpw).2) y
+
+/-- PARTIAL (see header): with every weight 1 the code's pieces satisfy yᵀ (Dv − M) y ≥ 0 for every vector,
+    i.e. I − Dv^{-1/2} M Dv^{-1/2} is positive semidefinite (substitute y_i = x_i / sqrt(Dv_i)).
+    Not true of the code for other weights: see the last example. -/
+theorem C12_normalized_psd_partial (h : Net) (hwf : h.WF) (weighted : Bool) (ws : List (Option ℚ)) (r : Norm)
+    (hr : normalized h weighted ws = .ok r)
+    (hone : ∀ x ∈ weightsOf h weighted ws, x = 1) (hlen : (weightsOf h weighted ws).length = h.edges.length)
+    (ys : List ℚ) (hy : ys.length = h.nodes.length) : 0 ≤ congQuad r ys := by
+  obtain ⟨y, rfl⟩ := exists_fun_of_list h.nodes hwf.1 ys hy
+  obtain ⟨_, hdv, _, _, _⟩ := normalized_eq h hwf weighted ws r hr
+  have hpsd := (C12_normalized_textbook_psd h hwf weighted ws r hr (fun x hx => by rw [hone x hx]; norm_num) y).2
+  unfold congQuad
+  rw [hdv, List.map_map, qdot_map_map]
+  have : (h.nodes.map (fun n => ((deg h.edges n : Int) : ℚ) * (fun v => v * v) (y n)))
+      = h.nodes.map (fun n => degW (h.edges.zip (weightsOf h weighted ws)) n * (y n * y n)) := by
+    apply List.map_congr_left; intro n _
+    rw [degW_ones _ _ hone hlen]
+  simp only [Function.comp_apply] at this ⊢
+  rw [this]
+  exact hpsd
+
+/-! ### adjacency tensor -/
+
+/-- every index tuple over the nodes occurs in the tensor, and only those -/
+theorem C12_tensor_indices (h : Net) (d : Nat) (nm : Bool) (t : List Nat) :
+    t ∈ (tensor h d nm).1.map (·.1) ↔ t.length = d + 1 ∧ ∀ i ∈ t, i < h.nodes.length := by
+  unfold tensor
+  dsimp only
+  split <;> simp [List.map_map, Function.comp_def, tuples_mem]
+
+/-- an entry is non-zero exactly when its index tuple is a permutation of the members of an order-d edge;
+    non-zero entries are 1 (1/d! when normalised) -/
+theorem C12_tensor_spec (h : Net) (d : Nat) (nm : Bool) (t : List Nat) (v : ℚ) (hm : (t, v) ∈ (tensor h d nm).1) :
+    (v ≠ 0 ↔ ∃ p ∈ edgesOf h (some d), (t.map (fun i => h.nodes.getD i PyId.none)).Perm p.2) ∧
+    (v = 0 ∨ v = if nm then 1 / (fact d : ℚ) else 1) := by
+  unfold tensor at hm
+  dsimp only at hm
+  split at hm
+  · rename_i hdeg
+    simp only [List.mem_map, Prod.mk.injEq] at hm
+    obtain ⟨t', ht', rfl, rfl⟩ := hm
+    refine ⟨?_, Or.inl rfl⟩
+    simp only [ne_eq, not_true_eq_false, false_iff, not_exists, not_and]
+    intro p hp
+    rcases (incidence_mat_isEmpty h (some d)).mp hdeg with he | hn
+    · rw [he] at hp; simp at hp
+    · have := ((tuples_mem _ _ _).mp ht')
+      rw [hn] at this
+      cases t' with
+      | nil => simp at this
+      | cons i s => exact absurd (this.2 i (by simp)) (by simp)
+  · simp only [List.mem_map, Prod.mk.injEq] at hm
+    obtain ⟨t', _, rfl, rfl⟩ := hm
+    refine ⟨tensorVal_ne_zero h d nm t', ?_⟩
+    unfold tensorVal
+    split
+    · exact Or.inr rfl
+    · exact Or.inl rfl
+
+/-! ### non-vacuity and concrete evaluations -/
+
+private def demo : Net :=
+  { nodes := [.str "a", .str "b", .str "c", .str "d"],
+    edges := [(.int 0, [.str "a"]), (.int 1, [.str "a", .str "b"]), (.int 2, [.str "a", .str "b"]),
+              (.int 3, [.str "a", .str "b", .str "c"])] }
+
+example : demo.WF := by
+  refine ⟨by decide, by decide, ?_⟩
+  intro p hp
+  simp only [demo, List.mem_cons, List.not_mem_nil, or_false] at hp
+  rcases hp with rfl | rfl | rfl | rfl <;> exact ⟨by decide, by decide⟩
+
+example : (incidence demo (some 1)).mat = [[1, 1], [1, 1], [0, 0], [0, 0]] := by decide
+example : (incidence demo (some 1)).cols = [.int 1, .int 2] := by decide
+example : (incidence demo (some 3)).mat = [] := by decide
+example : (adjacency demo none 2 true).1 = [[0, 3, 0, 0], [3, 0, 0, 0], [0, 0, 0, 0], [0, 0, 0, 0]] := by decide
+example : (adjacency demo none 2 false).1 = [[0, 1, 0, 0], [1, 0, 0, 0], [0, 0, 0, 0], [0, 0, 0, 0]] := by decide
+example : (adjacency demo (some 3) 1 true) = ([[0, 0, 0, 0], [0, 0, 0, 0], [0, 0, 0, 0], [0, 0, 0, 0]], []) := by decide
+example : (degreeVec demo (some 1)).1 = [2, 2, 0, 0] := by decide
+example : (profile demo none).1 = [[1, 1, 1, 1], [1, 2, 2, 2], [1, 2, 2, 2], [1, 2, 2, 3]] := by decide
+example : (laplacianInt demo 2).1 = [[2, -1, -1, 0], [-1, 2, -1, 0], [-1, -1, 2, 0], [0, 0, 0, 0]] := by decide
+example : shared demo none (.str "a") (.str "b") = 3 := by decide
+example : pairs [1, 2, 3] = [(1, 2), (1, 3), (2, 3)] := by decide
+
+/-- the witness of the known finding: one edge {1, 2} with weight 3 -/
+private def wit : Net := { nodes := [.int 1, .int 2], edges := [(.int 0, [.int 1, .int 2])] }
+private def witR : Norm := ⟨[[3/2, 3/2], [3/2, 3/2]], [1, 1], [.int 1, .int 2]⟩
+
+example : wit.WF := by
+  refine ⟨by decide, by decide, ?_⟩
+  intro p hp
+  simp only [wit, List.mem_cons, List.not_mem_nil, or_false] at hp
+  subst hp; exact ⟨by decide, by decide⟩
+
+/-- the model (= the code) on the witness … -/
+example : normalized wit true [some 3] = .ok witR := by
+  simp [normalized, wit, witR, incidence, edgesOf, transpose, ind, dot3]
+/-- … violates the full-strength statement: yᵀ (Dv − M) y = −4 < 0 for y = (1, 1), i.e. xᵀ L x = −4 for
+    x = (1, 1) (Dv = (1, 1)): the matrix returned for non-negative weights is not positive semidefinite -/
+example : congQuad witR [1, 1] = -4 := by norm_num [congQuad, witR, qdot, quadQ]
+/-- while with weight 1 the same network satisfies the partial theorem's conclusion with equality at (1, 1) -/
+example : normalized wit true [some 1] = .ok ⟨[[1/2, 1/2], [1/2, 1/2]], [1, 1], [.int 1, .int 2]⟩ := by
+  simp [normalized, wit, incidence, edgesOf, transpose, ind, dot3]
+
+example : laplacian demo 0 true = none := by
+  rw [C12_laplacian_defined demo (by
+    refine ⟨by decide, by decide, ?_⟩
+    intro p hp
+    simp only [demo, List.mem_cons, List.not_mem_nil, or_false] at hp
+    rcases hp with rfl | rfl | rfl | rfl <;> exact ⟨by decide, by decide⟩)]
+  exact ⟨rfl, rfl, by decide⟩
+example : (multiorder demo [1, 2] [1] false matches .errValue) = true := by decide
+example : (multiorder demo [1, 2] [1, 1/2] true matches .ok _) = true := by decide
+
 end Xgi.C12
